@@ -521,4 +521,221 @@ theorem exactValue_same (v s o T : Nat) (h : exactValue v s o s o = some T) : T 
       by_cases hcc : q.isInt = true ∧ 0 ≤ q.floor ∧ q.floor < 2 ^ 32
       · exact hc hcc
       · simp only [hcc, if_false] at h; cases h
+
+/-- error analysis of the component arithmetic for values up to 2^32 (accumulated totals), given that the physical
+value itself lies in [0, 2^32] -/
+theorem comp_bound32 (v CS CO DS DO q1 q2 q3 q4 : ℚ) (hv0 : 0 ≤ v) (hv : v ≤ 2 ^ 32) (hCS : 1 / 2 ≤ CS)
+    (hCO : |CO| ≤ 2 ^ 10) (hDS0 : 0 < DS) (hDS : DS ≤ 2 ^ 17) (hDO : |DO| ≤ 2 ^ 10)
+    (hp0 : 0 ≤ (v / CS - CO + DO) * DS) (hp : (v / CS - CO + DO) * DS ≤ 2 ^ 32)
+    (h1 : Near q1 (v / CS)) (h2 : Near q2 (q1 - CO)) (h3 : Near q3 (q2 + DO)) (h4 : Near q4 (q3 * DS)) :
+    |q4 - (v / CS - CO + DO) * DS| ≤ 1 / 2 ^ 10 := by
+  have hCSpos : 0 < CS := by linarith
+  have he := eta_le
+  set A := v / CS with hAdef
+  have hA0 : 0 ≤ A := div_nonneg hv0 hCSpos.le
+  have hA : A ≤ 2 ^ 33 := by
+    rw [hAdef, div_le_iff₀ hCSpos]
+    calc v ≤ 2 ^ 32 := hv
+      _ = 2 ^ 33 * (1 / 2) := by norm_num
+      _ ≤ 2 ^ 33 * CS := by gcongr
+  have hcd : |CO - DO| ≤ 2 ^ 11 := by
+    have := abs_sub CO DO
+    linarith
+  have hAD : A * DS ≤ 2 ^ 33 := by
+    have e : A * DS = (A - CO + DO) * DS + (CO - DO) * DS := by ring
+    have : (CO - DO) * DS ≤ 2 ^ 11 * 2 ^ 17 := by
+      calc (CO - DO) * DS ≤ |CO - DO| * DS := by gcongr; exact le_abs_self _
+        _ ≤ 2 ^ 11 * 2 ^ 17 := by gcongr
+    rw [e]; norm_num at this ⊢; linarith
+  have absA : |A| = A := abs_of_nonneg hA0
+  have e1 : |q1 - A| ≤ A / 2 ^ 53 + 1 / 2 ^ 80 := by
+    have := h1.1; rw [absA] at this; linarith
+  have hA53 : A / 2 ^ 53 ≤ 1 / 2 ^ 20 := by
+    rw [div_le_iff₀ (by positivity)]; norm_num at hA ⊢; linarith
+  have a1 : |q1| ≤ A + 1 := by
+    have := abs_sub_abs_le_abs_sub q1 A
+    rw [absA] at this
+    have : (1 : ℚ) / 2 ^ 20 + 1 / 2 ^ 80 ≤ 1 := by norm_num
+    linarith
+  have a1' : |q1 - CO| ≤ A + 1 + 2 ^ 10 := by
+    have := abs_sub q1 CO; linarith
+  have e2 : |q2 - (q1 - CO)| ≤ (A + 1 + 2 ^ 10) / 2 ^ 53 + 1 / 2 ^ 80 := by
+    have := h2.1
+    have : |q1 - CO| / 2 ^ 53 ≤ (A + 1 + 2 ^ 10) / 2 ^ 53 := by gcongr
+    linarith
+  have hsmall : (A + 2 ^ 12) / 2 ^ 53 ≤ 1 / 2 ^ 19 := by
+    rw [div_le_iff₀ (by positivity)]; norm_num at hA ⊢; linarith
+  have a2 : |q2| ≤ A + 2 + 2 ^ 10 := by
+    have := abs_sub_abs_le_abs_sub q2 (q1 - CO)
+    have : (A + 1 + 2 ^ 10) / 2 ^ 53 ≤ (A + 2 ^ 12) / 2 ^ 53 := by
+      apply div_le_div_of_nonneg_right _ (by positivity)
+      have : (1 : ℚ) + 2 ^ 10 ≤ 2 ^ 12 := by norm_num
+      linarith
+    have : (1 : ℚ) / 2 ^ 19 + 1 / 2 ^ 80 ≤ 1 := by norm_num
+    linarith
+  have a2' : |q2 + DO| ≤ A + 2 + 2 ^ 11 := by
+    have := abs_add_le q2 DO
+    have : (2 : ℚ) ^ 10 + 2 ^ 10 = 2 ^ 11 := by norm_num
+    linarith
+  have e3 : |q3 - (q2 + DO)| ≤ (A + 2 + 2 ^ 11) / 2 ^ 53 + 1 / 2 ^ 80 := by
+    have := h3.1
+    have : |q2 + DO| / 2 ^ 53 ≤ (A + 2 + 2 ^ 11) / 2 ^ 53 := by gcongr
+    linarith
+  -- error before the multiplication
+  have r3 : |q3 - (A - CO + DO)| ≤ (3 * A + 2 ^ 13) / 2 ^ 53 + 3 / 2 ^ 80 := by
+    have t : |q3 - (A - CO + DO)| ≤ |q3 - (q2 + DO)| + |q2 - (q1 - CO)| + |q1 - A| := by
+      have := abs_add_three (q3 - (q2 + DO)) (q2 - (q1 - CO)) (q1 - A)
+      calc |q3 - (A - CO + DO)| = |q3 - (q2 + DO) + (q2 - (q1 - CO)) + (q1 - A)| := by congr 1; ring
+        _ ≤ _ := this
+    have : A / 2 ^ 53 + (A + 1 + 2 ^ 10) / 2 ^ 53 + (A + 2 + 2 ^ 11) / 2 ^ 53 ≤ (3 * A + 2 ^ 13) / 2 ^ 53 := by
+      rw [← add_div, ← add_div]
+      apply div_le_div_of_nonneg_right _ (by positivity)
+      have : (1 : ℚ) + 2 ^ 10 + (2 + 2 ^ 11) ≤ 2 ^ 13 := by norm_num
+      linarith
+    linarith
+  have m3 : |q3 * DS - (A - CO + DO) * DS| ≤ 1 / 2 ^ 17 := by
+    have e : q3 * DS - (A - CO + DO) * DS = (q3 - (A - CO + DO)) * DS := by ring
+    rw [e, abs_mul, abs_of_pos hDS0]
+    calc |q3 - (A - CO + DO)| * DS ≤ ((3 * A + 2 ^ 13) / 2 ^ 53 + 3 / 2 ^ 80) * DS := by gcongr
+      _ = (3 * (A * DS) + 2 ^ 13 * DS) / 2 ^ 53 + 3 / 2 ^ 80 * DS := by ring
+      _ ≤ (3 * 2 ^ 33 + 2 ^ 13 * 2 ^ 17) / 2 ^ 53 + 3 / 2 ^ 80 * 2 ^ 17 := by gcongr
+      _ ≤ 1 / 2 ^ 17 := by norm_num
+  have a3 : |q3 * DS| ≤ 2 ^ 32 + 1 := by
+    have := abs_sub_abs_le_abs_sub (q3 * DS) ((A - CO + DO) * DS)
+    have hp' : |(A - CO + DO) * DS| ≤ 2 ^ 32 := by rw [abs_of_nonneg hp0]; exact hp
+    have : (1 : ℚ) / 2 ^ 17 ≤ 1 := by norm_num
+    linarith
+  have e4 : |q4 - q3 * DS| ≤ (2 ^ 32 + 1) / 2 ^ 53 + 1 / 2 ^ 80 := by
+    have := h4.1
+    have : |q3 * DS| / 2 ^ 53 ≤ (2 ^ 32 + 1) / 2 ^ 53 := by gcongr
+    linarith
+  have t4 : |q4 - (A - CO + DO) * DS| ≤ |q4 - q3 * DS| + |q3 * DS - (A - CO + DO) * DS| := by
+    have := abs_add_le (q4 - q3 * DS) (q3 * DS - (A - CO + DO) * DS)
+    calc |q4 - (A - CO + DO) * DS| = |q4 - q3 * DS + (q3 * DS - (A - CO + DO) * DS)| := by congr 1; ring
+      _ ≤ _ := this
+  have : ((2 : ℚ) ^ 32 + 1) / 2 ^ 53 + 1 / 2 ^ 80 + 1 / 2 ^ 17 ≤ 1 / 2 ^ 10 := by norm_num
+  linarith
+
+/-- the component arithmetic on the model for values up to 2^32 (accumulated totals) whose physical value lies in
+`[0, 2^32]`: a finite datum within 2^-10 of `((val/CS − CO) + DO)·DS`. -/
+theorem comp_fin32 (val : Nat) (hval : val ≤ 2 ^ 32) (cs co ds d0 : Nat) (hc : rangeOK cs co = true)
+    (hd : rangeOK ds d0 = true) :
+    ∃ CS CO DS DO : ℚ, IsFin cs CS ∧ IsFin co CO ∧ IsFin ds DS ∧ IsFin d0 DO ∧
+      (0 ≤ ((val : ℚ) / CS - CO + DO) * DS → ((val : ℚ) / CS - CO + DO) * DS ≤ 2 ^ 32 →
+        ∃ q : ℚ, IsFin (ScaleOffset.discard (ScaleOffset.apply (ofInt (val : Nat)) cs co) ds d0) q ∧
+          |q - ((val : ℚ) / CS - CO + DO) * DS| ≤ 1 / 2 ^ 10) := by
+  obtain ⟨CS, CO, fcs, fco, hco64, hCS, hCS', hCO⟩ := rangeOK_spec cs co hc
+  obtain ⟨DS, DO, fds, fdo, hdo64, hDS, hDS', hDO⟩ := rangeOK_spec ds d0 hd
+  refine ⟨CS, CO, DS, DO, fcs, fco, fds, fdo, ?_⟩
+  intro hp0 hp
+  have hCSpos : 0 < CS := by linarith
+  have hDSpos : 0 < DS := by linarith
+  have hv0 : (0 : ℚ) ≤ ((val : Int) : ℚ) := by simp
+  have hvq : ((val : Int) : ℚ) ≤ 2 ^ 32 := by
+    simp only [Int.cast_natCast]; exact_mod_cast hval
+  have hV := ofInt_fin (val : Int) (by simp; omega)
+  have b0 : |((val : Int) : ℚ) / CS| ≤ 2 ^ 33 := by
+    rw [abs_div, abs_of_pos hCSpos, abs_of_nonneg hv0, div_le_iff₀ hCSpos]
+    calc ((val : Int) : ℚ) ≤ 2 ^ 32 := hvq
+      _ = 2 ^ 33 * (1 / 2) := by norm_num
+      _ ≤ 2 ^ 33 * CS := by gcongr
+  obtain ⟨q1, f1, n1⟩ := div_fin _ cs _ CS hV fcs hCSpos.ne' (lt_big _ (by linarith [b0]))
+  have b1 : |q1| ≤ 2 ^ 34 := by
+    have := near_bound q1 _ _ n1 b0
+    have : (2 : ℚ) ^ 33 + 2 ^ 33 / 2 ^ 53 + 1 / 2 ^ 80 ≤ 2 ^ 34 := by norm_num
+    linarith
+  have b1' : |q1 - CO| ≤ 2 ^ 35 := by
+    have := abs_sub q1 CO
+    have : (2 : ℚ) ^ 34 + 2 ^ 10 ≤ 2 ^ 35 := by norm_num
+    linarith
+  obtain ⟨q2, f2, n2⟩ := sub_fin _ co hco64 q1 CO f1 fco (lt_big _ (by linarith [b1']))
+  have hp0' : 0 ≤ (((val : Int) : ℚ) / CS - CO + DO) * DS := by simpa using hp0
+  have hp' : (((val : Int) : ℚ) / CS - CO + DO) * DS ≤ 2 ^ 32 := by simpa using hp
+  by_cases hu : isUnit ds d0 = true
+  · obtain ⟨hs64, _⟩ := rangeOK_lt ds d0 hd
+    obtain ⟨e1, e0⟩ := unit_vals ds d0 DS DO hs64 hdo64 fds fdo hu
+    subst e1 e0
+    refine ⟨q2, ?_, ?_⟩
+    · simp only [ScaleOffset.discard, hu, if_true, ScaleOffset.apply]; exact f2
+    · have h3 : Near q2 (q2 + 0) := by
+        refine ⟨by simp; unfold eta; positivity, fun _ _ _ _ _ => by simp⟩
+      have h4 : Near q2 (q2 * 1) := by
+        refine ⟨by simp; unfold eta; positivity, fun _ _ _ _ _ => by simp⟩
+      have := comp_bound32 _ CS CO 1 0 q1 q2 q2 q2 hv0 hvq hCS hCO (by norm_num) (by norm_num) (by norm_num)
+        hp0' hp' n1 n2 h3 h4
+      simpa using this
+  · have hu' : isUnit ds d0 = false := by simpa using hu
+    have b2 : |q2| ≤ 2 ^ 36 := by
+      have := near_bound q2 _ _ n2 b1'
+      have : (2 : ℚ) ^ 35 + 2 ^ 35 / 2 ^ 53 + 1 / 2 ^ 80 ≤ 2 ^ 36 := by norm_num
+      linarith
+    have b2' : |q2 + DO| ≤ 2 ^ 37 := by
+      have := abs_add_le q2 DO
+      have : (2 : ℚ) ^ 36 + 2 ^ 10 ≤ 2 ^ 37 := by norm_num
+      linarith
+    obtain ⟨q3, f3, n3⟩ := add_fin _ d0 q2 DO f2 fdo (lt_big _ (by linarith [b2']))
+    have b3 : |q3| ≤ 2 ^ 38 := by
+      have := near_bound q3 _ _ n3 b2'
+      have : (2 : ℚ) ^ 37 + 2 ^ 37 / 2 ^ 53 + 1 / 2 ^ 80 ≤ 2 ^ 38 := by norm_num
+      linarith
+    have b3' : |q3 * DS| ≤ 2 ^ 55 := by
+      rw [abs_mul, abs_of_pos hDSpos]
+      calc |q3| * DS ≤ 2 ^ 38 * 2 ^ 17 := mul_le_mul b3 hDS' (by linarith) (by norm_num)
+        _ = 2 ^ 55 := by norm_num
+    obtain ⟨q4, f4, n4⟩ := mul_fin _ ds q3 DS f3 fds (lt_big _ (by linarith [b3']))
+    refine ⟨q4, ?_, ?_⟩
+    · simp only [ScaleOffset.discard, hu', Bool.false_eq_true, if_false, ScaleOffset.apply]; exact f4
+    · have := comp_bound32 _ CS CO DS DO q1 q2 q3 q4 hv0 hvq hCS hCO hDSpos hDS' hDO hp0' hp' n1 n2 n3 n4
+      simpa using this
+
+/-- **value of an expanded component on the model, for slices and accumulated totals up to 2^32.** With both pairs in
+range and a physical value in `[0, 2^32 − 1]`: the decoder's `uint32(math.Round(Discard(Apply(val …))))` is an integer
+within one unit of the physical value, and is the physical value itself whenever that is an integer. -/
+theorem comp_value32 (val : Nat) (hval : val ≤ 2 ^ 32) (cs co ds d0 : Nat) (hc : rangeOK cs co = true)
+    (hd : rangeOK ds d0 = true) :
+    ∃ CS CO DS DO : ℚ, IsFin cs CS ∧ IsFin co CO ∧ IsFin ds DS ∧ IsFin d0 DO ∧
+      (0 ≤ ((val : ℚ) / CS - CO + DO) * DS → ((val : ℚ) / CS - CO + DO) * DS ≤ 2 ^ 32 - 1 →
+        |((Fit.Expand.componentValue val cs co ds d0 : Nat) : ℚ) - ((val : ℚ) / CS - CO + DO) * DS| ≤ 1 ∧
+        ∀ e : Int, ((val : ℚ) / CS - CO + DO) * DS = e → (Fit.Expand.componentValue val cs co ds d0 : Int) = e) := by
+  obtain ⟨CS, CO, DS, DO, f1, f2, f3, f4, hfin⟩ := comp_fin32 val hval cs co ds d0 hc hd
+  refine ⟨CS, CO, DS, DO, f1, f2, f3, f4, ?_⟩
+  intro h0 h32
+  obtain ⟨q, fq, hq⟩ := hfin h0 (by linarith)
+  set phys := ((val : ℚ) / CS - CO + DO) * DS with hphys
+  have hql := abs_le.mp hq
+  have hqabs : |q| < 2 ^ 52 := by
+    rw [abs_lt]; constructor <;> norm_num at * <;> linarith
+  obtain ⟨i, fi, hi⟩ := round_fin_le _ q fq hqabs
+  have hil := abs_le.mp hi
+  have hi0 : 0 ≤ i := by
+    have : (-1 : ℚ) < (i : ℚ) := by norm_num at *; linarith
+    have : (-1 : Int) < i := by exact_mod_cast this
+    omega
+  have hi32 : i < 2 ^ 32 := by
+    have : (i : ℚ) < 2 ^ 32 := by norm_num at *; linarith
+    have : (i : ℚ) < ((2 ^ 32 : Int) : ℚ) := by push_cast; linarith
+    exact_mod_cast this
+  have hcv : Fit.Expand.componentValue val cs co ds d0 = i.toNat := by
+    unfold Fit.Expand.componentValue
+    rw [cvt_int .u32 (by decide) _ i fi (by
+      simp only [InRange, IntTy.signed, IntTy.bits, Bool.false_eq_true, if_false]; exact ⟨hi0, hi32⟩)]
+    simp only [wrap, IntTy.bits]
+    congr 1
+    exact Int.emod_eq_of_lt hi0 (by simpa using hi32)
+  have hcast : ((i.toNat : Nat) : Int) = i := Int.toNat_of_nonneg hi0
+  have hcastq : ((i.toNat : Nat) : ℚ) = (i : ℚ) := by
+    have : (((i.toNat : Nat) : Int) : ℚ) = (i : ℚ) := by rw [hcast]
+    rw [← this]; norm_cast
+  rw [hcv, hcastq]
+  constructor
+  · rw [abs_le]; constructor <;> norm_num at * <;> linarith
+  · intro e he
+    rw [hcast]
+    have : |((i - e : Int) : ℚ)| < 1 := by
+      push_cast; rw [← he, abs_lt]; constructor <;> norm_num at * <;> linarith
+    rw [← Int.cast_abs] at this
+    have : |i - e| < 1 := by exact_mod_cast this
+    have := abs_lt.mp this
+    omega
+
 end Fit.C05L
